@@ -1599,7 +1599,6 @@ pub fn type_table() -> Vec<TypeEntry> {
     // more elements than an 8- / 16-bit element counter holds
     entry!(v, "[u8;256]", [u8; 256]);
     entry!(v, "[u8;65536]", [u8; 65536]);
-    entry!(v, "Box<[u16;65537]>", Box<[u16; 65537]>);
     entry!(v, "[String;3]", [String; 3], 24);
     entry!(v, "[Option<u8>;3]", [Option<u8>; 3]);
     entry!(v, "Vec<u8>", Vec<u8>);
